@@ -317,6 +317,9 @@ pub fn cow_alphabet(g: &Geo) -> Vec<Op> {
     w(2 * cs + (cs / 2 / bs * bs), bs.min(cs / 2).max(bs), &mut ops); // middle of source cluster 2
     w(cs, 3 * cs, &mut ops); // batch over clusters 1..3 (own + source)
     w(4 * cs, bs, &mut ops); // beyond a short backing image / unallocated
+    if g.sl() < g.tb() {
+        w(g.sl(), bs, &mut ops); // sibling slice of the same L2 cluster
+    }
     ops.push(Op::Read { off: 0, len: (2 * cs) as usize });
     ops.push(Op::Discard { off: 0, len: cs });
     ops.push(Op::Discard { off: 0, len: 4 * cs });
